@@ -100,9 +100,19 @@ def main():
   items = [dict(scn=all_dumps[k]["scn"], dump=all_dumps[k], seed=args.seed, interp=spec["interp"], tag="tlc") for k in chosen]
   # ---- random larger graphs (no prediction; judged by the predicates only)
   nrand = 150 if args.tier == "quick" else 6000
-  for i in range(nrand):
-    scn = rgen.gen(args.seed * 1000003 + i, 3, 9 if args.tier == "thorough" else 7, nsub=1 if i % 5 else 2)
-    items.append(dict(scn=scn, dump=None, seed=args.seed + i, interp=spec["interp"], tag="random"))
+  rand = [rgen.gen(args.seed * 1000003 + i, 3, 9 if args.tier == "thorough" else 7, nsub=1 if i % 5 else 2) for i in range(nrand)]
+  # the specification's machine is run on them too (PipelineFrom.tla): design invariants + a predicted terminal state each
+  rf, rdumps = pipecheck.design_run_from("%s_random" % prop, rand, spec["inv"], timeout=7200)
+  states += rf.distinct
+  trans += rf.generated
+  if rf.error or rf.rc not in (0, 12):
+    chk.machinery("TLC failed on PipelineFrom: %s" % rf.out[-600:])
+  if rf.violated:
+    chk.note("design-level: invariant %s violated on a random graph (see work/%s_random/tlc.out)" % (",".join(rf.violated), prop))
+  per_cfg["random_from"] = {"states": rf.distinct, "transitions": rf.generated, "terminal_scenarios": len(rdumps), "wall_s": round(rf.wall, 1)}
+  for i, scn in enumerate(rand):
+    key = synth.scn_key({k: scn[k] for k in ("subs", "mode", "inmode", "outmode")})
+    items.append(dict(scn=scn, dump=rdumps.get(key), seed=args.seed + i, interp=spec["interp"], tag="random"))
   t0 = time.time()
   results = pipecheck.run_impl_many(items, args.procs)
   for it, r in zip(items, results):
@@ -134,8 +144,8 @@ def main():
   chk.cov.update({
       "states": states, "transitions": trans,
       "traces_validated_against_impl": len(verdicts),
-      "spec_to_code_replays": sum(1 for r in results if r["tag"] == "tlc" and r.get("unreal") is None),
-      "spec_to_code_exact_agreement": sum(1 for r in results if r["tag"] == "tlc" and r.get("diffs") == []),
+      "spec_to_code_replays": sum(1 for r in results if r.get("diffs") is not None),
+      "spec_to_code_exact_agreement": sum(1 for r in results if r.get("diffs") == []),
       "spec_drift": len(drift),
       "random_larger_graphs": sum(1 for r in results if r["tag"] == "random" and r.get("unreal") is None),
       "terminal_scenarios_enumerated": len(all_dumps),
